@@ -614,10 +614,10 @@ def shape_e2e(ctx, shim, model, ch, r, n, per_script):
         # flags 4 | 16 = PRESERVE_DEFAULT_IGNORABLES | DO_NOT_INSERT_DOTTED_CIRCLE, cluster level 1 = monotone characters
         lines.append(f"shape c11e2e{sd.iso} {d} {sd.iso if explicit else '-'} - 20 1 - {hx(p)} {hx(q_)} {text}")
         oracle.append(f"arabic cls 0,0,0,0,0,0,0,0 {pre or '-'} {w} {post or '-'}")
-        meta.append((sd, d, explicit, t))
+        meta.append((sd, d, explicit, t, not any(c in sd.foreign for c in p + t + q_)))
     groups, gidx = [], []
     by = {}
-    for i, (sd, _, _, _) in enumerate(meta):
+    for i, (sd, _, _, _, _) in enumerate(meta):
         by.setdefault(sd.iso, []).append(i)
     for name, idx in by.items():
         for j in range(0, len(idx), 4000):
@@ -635,7 +635,7 @@ def shape_e2e(ctx, shim, model, ch, r, n, per_script):
     spec = q(model, oracle)
     bad = 0
     dist, per, nbad, modes, shown = {}, {}, {}, {}, {}
-    for ln, orc, (sd, d, explicit, t), o, sp in zip(lines, oracle, meta, outs, spec):
+    for ln, orc, (sd, d, explicit, t, pure), o, sp in zip(lines, oracle, meta, outs, spec):
         k = len(sd.letters)
         want = [int(x) for x in sp.split()[1:]]
         if sd.iso == "Mong":
@@ -659,9 +659,9 @@ def shape_e2e(ctx, shim, model, ch, r, n, per_script):
         if not ok:
             bad += 1
             nbad[sd.iso] = nbad.get(sd.iso, 0) + 1
-            # per script: the first failing input, and the first one where a letter that should take a positional form
-            # gets another form (at most 3 scripts are spelled out, the rest is counted)
-            on_letter = got is not None and any(w_ != 7 and g_ != w_ for g_, w_ in zip(got, want))
+            # per script: the first failing input, and the first one without borrowed letters where a letter that should
+            # take a positional form gets another form (at most 3 scripts are spelled out, the rest is counted)
+            on_letter = pure and got is not None and any(w_ != 7 and g_ != w_ for g_, w_ in zip(got, want))
             kind = "letter" if on_letter else "any"
             seen = shown.setdefault(sd.iso, set())
             if (len(shown) <= 3 or seen) and kind not in seen and not (kind == "any" and "letter" in seen):
